@@ -103,7 +103,7 @@ def cases(tier, seed):
             # long / ring side chains at the chain ends (terminal torsions and caps meet deep side-chain torsions)
             out[-1]["p"]["nterm_pool"] = ["ARG", "TRP", "ARG", "TRP", "LYS", "MET", "GLN"]
             out[-1]["p"]["cterm_pool"] = ["ARG", "TRP", "PRO", "LYS", "MET", "GLN", "GLU", "HIS", "TYR"]
-        elif i % 6 == 5:
+        elif i % 6 in (4, 5):
             # an imino N-terminus (one amine hydrogen less, ring closed onto N) with an obstacle at its hydrogen
             out[-1]["p"]["nterm_pool"] = ["PRO", "PRO", "PRO", "GLU", "HIS"]
             out[-1]["p"]["cterm_pool"] = ["PRO", "ARG", "TRP", "LYS", "GLN"]
